@@ -187,14 +187,15 @@ def run(tier: str, opts: dict) -> int:
     n_exec = 0
     for d in dialects:
         seen = set()
-        for ch, c in explorer.explore(lambda ch, d=d: gen_script(ch, d, max_n), D):
+        Dd = D if (tier == "quick" or d == "ansi") else D - 1  # thorough: the outermost ball under ansi only
+        for ch, c in explorer.explore(lambda ch, d=d: gen_script(ch, d, max_n), Dd):
             n_exec += 1
             if c["text"] not in seen:
                 seen.add(c["text"])
                 cases.append(c)
     # tsql without semicolons
     seen = set()
-    for ch, c in explorer.explore(lambda ch: gen_script(ch, "tsql", max_n, nosemi=True), D):
+    for ch, c in explorer.explore(lambda ch: gen_script(ch, "tsql", max_n, nosemi=True), D if tier == "quick" else D - 1):
         n_exec += 1
         if c["text"] not in seen:
             seen.add(c["text"])
@@ -219,7 +220,7 @@ def run(tier: str, opts: dict) -> int:
         f"sequences with <= {D} deviations from the single plain INSERT; dialects {dialects}; tsql no-semicolon mode ({len(TSQL_SEPS)} separators) by environment and by "
         "scoped override; non-trivial = script of >= 2 statements",
         exhaustive=True,
-        bound_completed={"deviations": D, "max_statements": max_n},
+        bound_completed={"deviations": D, "max_statements": max_n, "note": "thorough: D under ansi, D-1 under the other dialects and in tsql no-semicolon mode"},
     )
     rep.assumptions += [
         "statement text compared after whitespace collapse and removal of trailing semicolons",
